@@ -52,6 +52,23 @@ def start_models(thorough):
         if isinstance(m, Exception):
             continue
         out.append((label, m))
+    # generated control streams with less common eta / covariate forms (scaled eta inside the exponential, additive and
+    # logit etas, eta shared by two parameters)
+    try:
+        sys.path.insert(0, os.path.dirname(os.path.abspath(__file__)))
+        import C01
+        gen = {
+            'gen:eta_forms': C01.pk_program('ADVAN2 TRANS2', [
+                'CL = THETA(1)*EXP(THETA(4)*ETA(1))', 'V = THETA(2)*EXP(ETA(2)*WGT/70)', 'KA = THETA(3) + ETA(3)',
+                'S2 = V']).replace('$OMEGA 0.2', '$OMEGA 0.2\n$OMEGA 0.3'),
+            'gen:logit_shared': C01.pk_program('ADVAN1 TRANS2', [
+                'TVCL = THETA(1)*(WGT/70)**THETA(3)', 'CL = TVCL*EXP(ETA(1))',
+                'V = THETA(2)*EXP(ETA(2) + 0.5*ETA(1))', 'F1 = EXP(THETA(4)+ETA(1))/(1+EXP(THETA(4)+ETA(1)))', 'S1 = V']),
+        }
+        for label, text in gen.items():
+            out.append((label, _W['pm'].read_model_from_string(text)))
+    except Exception:  # noqa
+        pass
     for ex in ('pheno', 'pheno_linear'):
         try:
             out.append((f'example:{ex}', _W['pm'].load_example_model(ex)))
@@ -408,7 +425,8 @@ def main():
     if not thorough:
         # quick: 5 smallest corpus models with all refactorings; the rest in seeded order within the budget
         import random
-        small = [l for l, m in sorted(models, key=lambda x: len(x[1].statements))[:6]]
+        small = [l for l, m in sorted(models, key=lambda x: len(x[1].statements))[:6]] + \
+            [l for l, _ in models if l.startswith('gen:')]
         first = [c for c in cases if c[0] in small]
         rest = [c for c in cases if c[0] not in small]
         random.Random(run.seed).shuffle(rest)
